@@ -252,6 +252,140 @@ def one_history(args):
         shutil.rmtree(d, ignore_errors=True)
 
 
+def compaction_crash_history(args):
+    """process death DURING a compaction of a sizeable state: a complete node runs under the write-journal interposer; the state
+    is dumped at a quiescent point, then one compaction runs with nothing else going on; for the file-mutation prefixes of that
+    compaction (every index / catalogue / create / unlink / set-len mutation and a sample of the snapshot writes) the directory
+    image is restarted by a fresh node and must serve exactly the dumped state"""
+    import crashrig
+    wd, seed, n_cfg = args
+    rnd = random.Random(seed)
+    base = os.path.join(wd, "cc%d" % seed)
+    d = os.path.join(base, "live")
+    shutil.rmtree(base, ignore_errors=True)
+    os.makedirs(d)
+    jpath = os.path.join(base, "journal")
+    so = crashrig.build_shim()
+    res = {"seed": seed, "snap": 10000, "variant": "crash-during-compaction", "restarts": 0, "writes": 0, "rejected": 0, "images": 0}
+    sess = None
+    try:
+        sess = noderig.NodeSession(d, snapshot_size=10000, preload=so, env={"VERIF_JOURNAL": jpath, "VERIF_JOURNAL_DIR": d})
+        b = sess.call("barrier", min_index=1, bound_ms=RECOVER_BOUND_MS)
+        if not b.get("ok"):
+            res["inconclusive"] = "initial barrier failed: %s" % b
+            return res
+        gen = noderig.ReqGen(rnd)
+        gen.big_p = 0.0
+        last_index = 0
+        last_content = None
+        while res["writes"] < n_cfg:
+            req = gen.next(last_content)
+            if "ConfigSet" not in req:
+                continue
+            if len(req["ConfigSet"]["value"]) < 1500:
+                req["ConfigSet"]["value"] += "p" * 1500       # a snapshot of several hundred KB: many writer messages per compaction
+            last_content = req["ConfigSet"]["value"]
+            r = sess.write(req)
+            if r.get("ok"):
+                res["writes"] += 1
+                last_index = max(last_index, r.get("index", 0))
+        sess.call("barrier", min_index=last_index, bound_ms=RECOVER_BOUND_MS)
+        sess.call("actor_barrier", ms=50)
+        if not noderig.settle_on_disk(sess, d):
+            res["inconclusive"] = "applied index did not reach the index file"
+            return res
+        before = sess.call("dump", **gen.dump_args())
+        time.sleep(0.3)
+        j0 = os.path.getsize(jpath)
+        cr = sess.call("compact")
+        if not cr.get("ok"):
+            res["inconclusive"] = "compaction refused: %s" % cr
+            return res
+        res["compactions"] = 1
+        sess.call("barrier", min_index=last_index, bound_ms=RECOVER_BOUND_MS)
+        time.sleep(0.4)
+        sess.kill()
+        sess = None
+        with open(jpath, "rb") as f:
+            data = f.read()
+        pre = os.path.join(base, "journal.pre")
+        with open(pre, "wb") as f:
+            f.write(data[:j0])
+        k0 = len(crashrig.parse_journal(pre, d))
+        recs = crashrig.parse_journal(jpath, d)
+        os.remove(pre)
+        res["compaction_mutations"] = len(recs) - k0
+        if len(recs) - k0 < 5:
+            res["inconclusive"] = "compaction produced only %d file mutations" % (len(recs) - k0)
+            return res
+        # which prefixes: everything that is not a plain snapshot data write, plus a sample of those
+        cand = []
+        for k in range(k0, len(recs)):
+            rk = recs[k]
+            plain = rk[0] == "W" and rk[1].startswith("snapshot_")
+            if not plain or (k - k0) % max(1, (len(recs) - k0) // 12) == 0:
+                cand.append(k)
+        cand = sorted(set(cand + [len(recs) - 1]))[:45]
+        img = crashrig.Image()
+        for k in range(k0):
+            if recs[k][0] != "M":
+                img.apply(recs[k])
+        nxt = k0
+        idir = os.path.join(base, "img")
+        found = []
+        for k in cand:
+            while nxt <= k:
+                if recs[nxt][0] != "M":
+                    img.apply(recs[nxt])
+                nxt += 1
+            img.materialise(idir)
+            s2 = None
+            try:
+                s2 = noderig.NodeSession(idir, snapshot_size=10000)
+                b2 = s2.call("barrier", min_index=last_index, bound_ms=RECOVER_BOUND_MS)
+                if not b2.get("ok"):
+                    found.append({"symptom": "not-recovered-within-bound", "component": "-", "direction": "-", "field": "-", "detail": {"barrier": b2}, "k": k})
+                    break
+                s2.call("actor_barrier", ms=50)
+                after = s2.call("dump", **gen.dump_args())
+            except noderig.NodeDied as e:
+                found.append({"symptom": "restart-failed", "component": "-", "direction": "-", "field": "-", "detail": {"error": str(e)}, "k": k})
+                break
+            finally:
+                if s2:
+                    s2.kill()
+            res["images"] += 1
+            res["restarts"] += 1
+            normalise_admin_bootstrap(before, after)
+            diffs = noderig.diff_dumps(before, after)
+            # this history writes no users: the built-in admin row is only touched by the start-up bootstrap, whose race with the
+            # replay is the known finding state-differs-after-restart/tables/changed/T_USER/rows/admin (judged by the other histories)
+            diffs = [x for x in diffs if not x[0].startswith("/tables/T_USER/rows/admin")]
+            if diffs:
+                p0 = diffs[0][0].split("/")
+                found.append({"symptom": "state-differs-after-restart", "component": p0[1] if len(p0) > 1 else "-", "direction": "changed", "field": "/".join(p0[2:4]),
+                              "detail": {"diffs": [[pp, json.dumps(x)[:120], json.dumps(y)[:120]] for pp, x, y in diffs[:5]], "n_diffs": len(diffs)}, "k": k})
+                break
+        res["kinds"] = ["ConfigSet"]
+        res["max_snapshot_id"] = 1
+        for v in found:
+            rk = recs[v["k"]]
+            v["crash_after_mutation"] = [rk[0], rk[1]] + ([rk[2], len(rk[3])] if rk[0] == "W" else list(rk[2:3]))
+            v["journal_prefix"] = v["k"] - k0 + 1
+            v["of_compaction_mutations"] = len(recs) - k0
+            v["history_seed"] = seed
+            what = "snapshot-data" if rk[1].startswith("snapshot_") else rk[1].split("_")[0]
+            res.setdefault("violations", []).append({"signature": "crash-during-compaction/%s/%s/after-%s-write" % (v["symptom"], v["component"], what), "witness": v})
+        return res
+    except noderig.NodeDied as e:
+        res["inconclusive"] = "node session died: %s" % e
+        return res
+    finally:
+        if sess:
+            sess.kill()
+        shutil.rmtree(base, ignore_errors=True)
+
+
 def interrupted_compaction(args):
     """an earlier compaction attempt was interrupted and left a partial snapshot_<next id> behind; the node restarts,
     shrinks its state, compacts again (same file name) and restarts once more"""
@@ -372,6 +506,7 @@ def run(tier, seed):
         results = []
         with ThreadPoolExecutor(max_workers=common.NCPU) as ex:
             futs = [ex.submit(one_history, j) for j in jobs] + [ex.submit(interrupted_compaction, j) for j in ic]
+            futs += [ex.submit(compaction_crash_history, (wd, seed * 100000 + 90000 + i, [250, 600][i % 2])) for i in range(4 if tier == "quick" else 24)]
             for f in futs:
                 results.append(f.result())
         agg = {"restarts": 0, "writes": 0, "rejected": 0, "histories_with_compaction": 0, "histories_with_3plus_compactions": 0, "kinds_seen": set()}
